@@ -120,6 +120,9 @@ end PsV.Fits.Codec
 
 namespace PsV.Fits
 
+/-- binary32 NaN: exponent field all ones, fraction not zero (quiet or signalling, either sign, any payload) -/
+def isNaN32 (w : UInt32) : Bool := w.toNat / 8388608 % 256 == 255 && w.toNat % 8388608 != 0
+
 theorem ncoeffs_eq (axes : List Nat) (h : axes ≠ []) :
     ((partialProds 1 axes).reverse).headD 0 * (axes.reverse).headD 0 = prod axes := by
   rw [strides_of_axes, rowMajor_head _ (by simpa using h), prod_reverse]
